@@ -36,9 +36,13 @@ EXPLANATION = ("Theorems (Props/C07.lean, about the definitions drv_c07 runs; Ke
                "any two lengths; the root-distance form under suppression is oracle-only). Clause (d): outgroup_first (suppress off, node identity) and outgroup_first_leafset_partial (both suppress settings, leaf-set form; "
                "the outgroup child is identified in the re-seeded tree, not traced back to t). Clause (e): flag theorems for reseed, outgroup, reorient (content) and the "
                "hard ops (definitional). Structure: invert_is_chain, reseed_root_is_target, reseed_at_root_is_target, reseed_root_shape. "
-               "Still _partial: midpoint_walk_spec_partial (walk stops exactly at half the distance, tail node on equality; equidistance of "
-               "rerootAtMidpoint not assembled, maximality of the pair is an input); inversion_step_keeps_unrooted_splits_partial (one step; "
-               "whole chain needs GoodL carried along). Not proved, oracle only: split sets of whole operations, leaf targets, unary seeds.")
+               "Unrooted splits: reseed_keeps_usplits (whole chain + basal collapse + suppression, every flag setting) and "
+               "reroot_at_node_keeps_usplits, for trees whose leaves carry distinct taxa. Clause (c) under the default suppression: "
+               "reroot_at_edge_root_distances (leaves below the head at length2 + depth, all others at length1 + distance from the old tail; "
+               "suppression never moves the root; any two lengths). midpoint_in_edge_root_distances_partial (in-edge branch: leaves below the head at x + depth, x from the walk). Still _partial: midpoint_walk_spec_partial (walk stops exactly at half the distance, tail node on equality; equidistance of "
+               "rerootAtMidpoint not assembled, maximality of the pair is an input); inversion_step_keeps_unrooted_splits_partial (the single step behind "
+               "reseed_keeps_usplits). Not proved, oracle only: midpoint equidistance, split sets of outgroup/edge/midpoint/permutation "
+               "operations, leaf targets, unary seeds.")
 
 SOFT = {"reseed", "outgroup", "reorient", "rotate", "ladderize", "reorder"}
 HARD = {"rerootnode", "rerootedge", "midpoint"}
